@@ -10,10 +10,17 @@ Record col_ok (c : Col) : Prop := {
 }.
 
 (** domain: total production is zero or above the 1e-3 guard of balance.rs:329 *)
-Definition col_dom (c : Col) : Prop := c_p c = 0 \/ qfrac 1 1000 < c_p c.
+(** the production of the column is zero or positive (true of every column with non-negative entries: [col_ok_dom];
+    before fix c3bd83b the step functions needed more: zero or above the guard of 1e-3 kWh) *)
+Definition col_dom (c : Col) : Prop := c_p c = 0 \/ 0 < c_p c.
 
 Lemma c_p_nonneg c : col_ok c -> 0 <= c_p c.
 Proof. intros []. unfold c_p. destruct c; cbn in *. qlra. Qed.
+
+Lemma col_ok_dom c : col_ok c -> col_dom c.
+Proof. intros H. pose proof (c_p_nonneg c H) as P. unfold col_dom. destruct (qeqb_spec (c_p c) 0) as [Z|Z]; [now left|right]. revert P Z. generalize (c_p c). intros x P Z. toQ. absQ. cbn in *. destruct (Qlt_le_dec 0 Qx) as [L|L]; [exact L|exfalso; apply Z; now apply Qle_antisym].
+Qed.
+
 
 (** the rational function (32) *)
 Lemma fmatch_formula (x : Qc) : 0 < x ->
